@@ -31,7 +31,7 @@ def run(cmd, cwd=None, env=None, timeout=1800):
 try:
     rc, out = run(["git", "-C", "/repo", "worktree", "add", "-q", "--detach", wt, "HEAD"])
     assert rc == 0, out
-    env = {"NUMBA_CACHE_DIR": os.path.join(wt, ".numba_cache"), "PYTHONDONTWRITEBYTECODE": "1"}
+    env = {"NUMBA_CACHE_DIR": os.path.join(wt, ".numba_cache"), "PYTHONDONTWRITEBYTECODE": "1", "PYTHONPATH": wt}
     rc, out = run(["/venv/bin/python", demo], cwd=wt, env=env, timeout=300)
     res["demo_passes_unchanged"] = rc == 0
     rc, out = run(["git", "-C", wt, "apply", patch])
